@@ -116,6 +116,9 @@ func main() {
 		collectAddrTaken(p)
 		collectMethods(p)
 		collectSubmitters(p)
+		if p.name == "transport" {
+			collectPeerCloseBounds(p)
+		}
 		if p.name == "router" {
 			collectConsts(p)
 			collectYieldKeep(p)
@@ -1961,6 +1964,84 @@ func collectCancelWaits(p *pkgInfo) {
 	}
 }
 
+// peerCloseBounds: for every method Close of the transport package that waits
+// for its sender goroutine (a receive from <x>.writerDone): does a call of
+// SetWriteDeadline come first (a preceding statement of an enclosing block
+// contains one)?  The sender may sit in a network write to a client that
+// stopped reading; without a deadline that wait never ends.
+var peerCloseBounds [][3]string // method, file:line of the receive, "Some true" / "Some false"
+
+func containsCallNamed(n ast.Node, name string) bool {
+	found := false
+	ast.Inspect(n, func(x ast.Node) bool {
+		if c, ok := x.(*ast.CallExpr); ok {
+			if sel, ok := c.Fun.(*ast.SelectorExpr); ok && sel.Sel.Name == name {
+				found = true
+			}
+		}
+		return !found
+	})
+	return found
+}
+
+func collectPeerCloseBounds(p *pkgInfo) {
+	for _, f := range p.files {
+		for _, d := range f.Decls {
+			fd, ok := d.(*ast.FuncDecl)
+			if !ok || fd.Body == nil || fd.Recv == nil || fd.Name.Name != "Close" || len(fd.Recv.List) != 1 {
+				continue
+			}
+			name := p.name + ".(" + types.ExprString(fd.Recv.List[0].Type) + ").Close"
+			var path []ast.Node
+			ast.Inspect(fd.Body, func(n ast.Node) bool {
+				if n == nil {
+					path = path[:len(path)-1]
+					return true
+				}
+				path = append(path, n)
+				u, ok := n.(*ast.UnaryExpr)
+				if !ok || u.Op != token.ARROW {
+					return true
+				}
+				sel, ok := u.X.(*ast.SelectorExpr)
+				if !ok || sel.Sel.Name != "writerDone" {
+					return true
+				}
+				bounded := false
+			outer:
+				for i := len(path) - 1; i > 0; i-- {
+					child, parent := path[i], path[i-1]
+					var list []ast.Stmt
+					switch b := parent.(type) {
+					case *ast.BlockStmt:
+						list = b.List
+					case *ast.CaseClause:
+						list = b.Body
+					case *ast.CommClause:
+						list = b.Body
+					}
+					for _, st := range list {
+						if st == child {
+							break
+						}
+						if st.End() <= child.Pos() && containsCallNamed(st, "SetWriteDeadline") {
+							bounded = true
+							break outer
+						}
+					}
+				}
+				pos := fset.Position(n.Pos())
+				v := "Some false"
+				if bounded {
+					v = "Some true"
+				}
+				peerCloseBounds = append(peerCloseBounds, [3]string{name, fmt.Sprintf("%s:%d", filepath.Base(pos.Filename), pos.Line), v})
+				return true
+			})
+		}
+	}
+}
+
 // methodsBySig: "name|signature" -> inventory methods, for interface calls.
 var methodsBySig = map[string][]string{}
 
@@ -2154,6 +2235,15 @@ func emit() string {
 	cm := func(x string) string { return strings.ReplaceAll(x, "*)", "* )") }
 	fmt.Fprintf(&b, "(* %s *)\nDefinition gen_yield_stops_timer_before_retry : option bool := %s.\n\n", cm(yieldStopsTimerWhy), yieldStopsTimer)
 	fmt.Fprintf(&b, "(* %s *)\nDefinition gen_cancel_waits_only_if_interrupt_sent : option bool := %s.\n\n", cm(cancelWaitsIfSentWhy), cancelWaitsIfSent)
+	b.WriteString("Definition gen_peer_close_bounds_write : list (string * string * option bool) := [\n")
+	for i, d := range peerCloseBounds {
+		sep := ";"
+		if i == len(peerCloseBounds)-1 {
+			sep = ""
+		}
+		fmt.Fprintf(&b, "  (%s, %s, %s)%s\n", q(d[0]), q(d[1]), d[2], sep)
+	}
+	b.WriteString("].\n\n")
 	b.WriteString("Definition gen_invocation_drops : list (string * string * bool) := [\n")
 	for i, d := range invkDrops {
 		sep := ";"
